@@ -14,52 +14,52 @@ Definition all_chan (chan : bool) (w : list out) : Prop := Forall (fun x => o_tl
 
 Lemma all_chan_app c w1 w2 : all_chan c w1 -> all_chan c w2 -> all_chan c (w1 ++ w2).
 Proof. intros; apply Forall_app; split; assumption. Qed.
-Lemma all_chan_one c r : all_chan c [o c r].
+Lemma all_chan_one c r sn : all_chan c [o c r sn].
 Proof. constructor; [reflexivity|constructor]. Qed.
 Lemma all_chan_nil c : all_chan c [].
 Proof. constructor. Qed.
-Lemma all_chan_cons c r w : all_chan c w -> all_chan c (o c r :: w).
+Lemma all_chan_cons c r sn w : all_chan c w -> all_chan c (o c r sn :: w).
 Proof. intros; constructor; [reflexivity|assumption]. Qed.
 #[local] Hint Resolve all_chan_app all_chan_one all_chan_nil all_chan_cons : chan.
 
-Lemma enable_chan cfg c p f s : all_chan c (fst (fst (step_enable cfg c p f s))).
+Lemma enable_chan cfg c p f s sn : all_chan c (fst (fst (step_enable cfg c p f s sn))).
 Proof. unfold step_enable. repeat dmatch; cbn; auto with chan. Qed.
 
-Lemma session_chan cfg c p f s : all_chan c (fst (fst (step_session cfg c p f s))).
+Lemma session_chan cfg c p f s sn : all_chan c (fst (fst (step_session cfg c p f s sn))).
 Proof.
   unfold step_session. destruct (f_sess f); try apply enable_chan.
   destruct s as [|[] s']; cbn; auto with chan.
   destruct t; cbn; auto with chan.
-  pose proof (enable_chan cfg c (set_bind p (p_bind_jid p) (p_packet_id p + 1)) f s') as H.
-  destruct (step_enable _ _ _ _ _) as [[w r] p2]. cbn in *. auto with chan.
+  pose proof (enable_chan cfg c (set_bind p (p_bind_jid p) (p_packet_id p + 1)) f s' [SIq TResult pl err]) as H.
+  destruct (step_enable _ _ _ _ _ _) as [[w r] p2]. cbn in *. auto with chan.
 Qed.
 
-Lemma bind_chan cfg c p f s : all_chan c (fst (fst (step_bind cfg c p f s))).
+Lemma bind_chan cfg c p f s sn : all_chan c (fst (fst (step_bind cfg c p f s sn))).
 Proof.
   unfold step_bind. destruct s as [|[] s']; cbn; auto with chan.
   destruct t; cbn; auto with chan. destruct pl; cbn; auto with chan.
-  pose proof (session_chan cfg c (set_bind p jid (p_packet_id p + 1)) f s') as H.
-  destruct (step_session _ _ _ _ _) as [[w r] p2]. cbn in *. auto with chan.
+  pose proof (session_chan cfg c (set_bind p jid (p_packet_id p + 1)) f s' [SIq TResult (PlBind jid) err]) as H.
+  destruct (step_session _ _ _ _ _ _) as [[w r] p2]. cbn in *. auto with chan.
 Qed.
 
-Lemma resume_chan cfg c p f s : all_chan c (fst (fst (step_resume cfg c p f s))).
+Lemma resume_chan cfg c p f s sn : all_chan c (fst (fst (step_resume cfg c p f s sn))).
 Proof.
   unfold step_resume. destruct (f_sm f && negb (str_eqb (p_sm_id p) [])); [|apply bind_chan].
   destruct s as [|[] s']; cbn; auto with chan.
   - destruct (str_eqb previd (p_sm_id p)); cbn; auto with chan.
-  - pose proof (bind_chan cfg c (clear_sm p) f s') as H.
-    destruct (step_bind _ _ _ _ _) as [[w r] p2]. cbn in *. auto with chan.
+  - pose proof (bind_chan cfg c (clear_sm p) f s' [SFailed]) as H.
+    destruct (step_bind _ _ _ _ _ _) as [[w r] p2]. cbn in *. auto with chan.
 Qed.
 
-Lemma auth_chan cfg c p f s : all_chan c (fst (fst (step_auth cfg c p f s))).
+Lemma auth_chan cfg c p f s sn : all_chan c (fst (fst (step_auth cfg c p f s sn))).
 Proof.
   unfold step_auth. destruct (choose_mech _ _) as [m|]; cbn; auto with chan.
   destruct (negb (implemented m)); cbn; auto with chan.
   destruct s as [|[] s1]; cbn; auto with chan.
   destruct (read_header s1) as [[id s2]|]; cbn; auto with chan.
   destruct (read_features s2) as [[f2 s3]|]; cbn; auto with chan.
-  pose proof (resume_chan cfg c p f2 s3) as H.
-  destruct (step_resume _ _ _ _ _) as [[w r] p2]. cbn in *. auto with chan.
+  pose proof (resume_chan cfg c p f2 s3 [SHeader id; SFeatures f2]) as H.
+  destruct (step_resume _ _ _ _ _ _) as [[w r] p2]. cbn in *. auto with chan.
 Qed.
 
 (* a request that may travel in clear text *)
@@ -84,15 +84,15 @@ Proof.
     destruct tls; [|repeat constructor].
     destruct (read_header s3) as [[id1 s4]|]; [|repeat constructor].
     destruct (read_features s4) as [[f1 s5]|]; [|repeat constructor].
-    pose proof (auth_chan cfg true (with_session (set_flags (set_flags (set_flags p false (p_tls_enabled p)) false false) true true)) f1 s5) as H.
-    destruct (step_auth _ _ _ _ _) as [[w r] p2]. cbn [fst] in *.
+    pose proof (auth_chan cfg true (with_session (set_flags (set_flags (set_flags p false (p_tls_enabled p)) false false) true true)) f1 s5 [SHeader id1; SFeatures f1]) as H.
+    destruct (step_auth _ _ _ _ _ _) as [[w r] p2]. cbn [fst] in *.
     apply Forall_app; split; [repeat constructor|apply Forall_chan_imp; exact H].
   - destruct (read_proceed s2) as [s3|]; [|repeat constructor].
     destruct tls; [|repeat constructor].
     destruct (read_header s3) as [[id1 s4]|]; [|repeat constructor].
     destruct (read_features s4) as [[f1 s5]|]; [|repeat constructor].
-    pose proof (auth_chan cfg true (with_session (set_flags (set_flags (set_flags p false (p_tls_enabled p)) false false) true true)) f1 s5) as H.
-    destruct (step_auth _ _ _ _ _) as [[w r] p2]. cbn [fst] in *.
+    pose proof (auth_chan cfg true (with_session (set_flags (set_flags (set_flags p false (p_tls_enabled p)) false false) true true)) f1 s5 [SHeader id1; SFeatures f1]) as H.
+    destruct (step_auth _ _ _ _ _ _) as [[w r] p2]. cbn [fst] in *.
     apply Forall_app; split; [repeat constructor|apply Forall_chan_imp; exact H].
 Qed.
 
@@ -105,28 +105,28 @@ Proof.
   2: { intros H. inversion H as [? ? H1|? ? H1]; [discriminate|inversion H1]. }
   destruct (read_features s1) as [[f s2]|].
   2: { intros H. inversion H as [? ? H1|? ? H1]; [discriminate|inversion H1]. }
-  assert (Hclear : forall pp w r p2, step_auth cfg false pp f s2 = (w, r, p2) ->
-            Exists (fun x => o_tls x = true) ([o false ROpen] ++ w) -> tls = true).
-  { intros pp w r p2 E H. pose proof (auth_chan cfg false pp f s2) as Hc. rewrite E in Hc. cbn in Hc.
+  assert (Hclear : forall pp sn w r p2, step_auth cfg false pp f s2 sn = (w, r, p2) ->
+            Exists (fun x => o_tls x = true) ([o false ROpen []] ++ w) -> tls = true).
+  { intros pp sn w r p2 E H. pose proof (auth_chan cfg false pp f s2 sn) as Hc. rewrite E in Hc. cbn in Hc.
     apply Exists_app in H as [H|H].
     - inversion H as [? ? H1|? ? H1]; [discriminate|inversion H1].
     - apply Exists_exists in H as (x & Hin & Hx). unfold all_chan in Hc.
       rewrite Forall_forall in Hc. specialize (Hc x Hin). congruence. }
-  assert (Htwo : forall w, w = [o false ROpen; o false RStartTls] ->
+  assert (Htwo : forall w sn, w = [o false ROpen []; o false RStartTls sn] ->
             Exists (fun x => o_tls x = true) w -> tls = true).
-  { intros w -> H. inversion H as [? ? H1|? ? H1]; [discriminate|].
+  { intros w sn -> H. inversion H as [? ? H1|? ? H1]; [discriminate|].
     inversion H1 as [? ? H3|? ? H3]; [discriminate|inversion H3]. }
-  assert (Hone : Exists (fun x => o_tls x = true) [o false ROpen] -> tls = true).
+  assert (Hone : Exists (fun x => o_tls x = true) [o false ROpen []] -> tls = true).
   { intros H. inversion H as [? ? H1|? ? H1]; [discriminate|inversion H1]. }
   destruct (f_tls f).
   - destruct (c_insecure cfg); [|exact Hone].
-    destruct (step_auth _ _ _ _ _) as [[w r] p2] eqn:E. cbn [fst]. eapply Hclear; exact E.
+    destruct (step_auth _ _ _ _ _ _) as [[w r] p2] eqn:E. cbn [fst]. eapply Hclear; exact E.
   - destruct (read_proceed s2) as [s3|].
-    2: { destruct (c_insecure cfg); cbn [fst app]; apply Htwo; reflexivity. }
-    destruct tls; [reflexivity|]. destruct (c_insecure cfg); cbn [fst app]; apply Htwo; reflexivity.
+    2: { destruct (c_insecure cfg); cbn [fst app]; eapply Htwo; reflexivity. }
+    destruct tls; [reflexivity|]. destruct (c_insecure cfg); cbn [fst app]; eapply Htwo; reflexivity.
   - destruct (read_proceed s2) as [s3|].
-    2: { destruct (c_insecure cfg); cbn [fst app]; apply Htwo; reflexivity. }
-    destruct tls; [reflexivity|]. destruct (c_insecure cfg); cbn [fst app]; apply Htwo; reflexivity.
+    2: { destruct (c_insecure cfg); cbn [fst app]; eapply Htwo; reflexivity. }
+    destruct tls; [reflexivity|]. destruct (c_insecure cfg); cbn [fst app]; eapply Htwo; reflexivity.
 Qed.
 
 (* histories of connections *)
